@@ -217,7 +217,6 @@ Run(prog, heap, oracle, fuel) ==
         steps |-> st.steps, pcsum |-> st.pcsum, maxdepth |-> st.maxdepth]
 
 \* --- weight ---------------------------------------------------------------------
-U128MAX == Sub(Pow2(128), <<1>>)
 Sat(x) == BN_Min(x, U128MAX)
 BaseWeight(o) ==
     CASE o.op \in {"Noop", "Bez", "Bnz", "Jmp", "PushB", "PushI", "PushIC"} -> 1
